@@ -155,6 +155,7 @@ class Ctx:
             "modules": self.repo.digests(),
             "information": self.info,
             "known_findings_matched": [m["finding"].get("what", "") for m in matched_known],
+            "known_findings_observed": [k.get("what", "") for k in kf.get("observed", []) if k.get("property") == self.pid],
             "exhaustive": False,
         }
         coverage.update(self.extra)
@@ -184,6 +185,24 @@ class Ctx:
             print("KNOWN-FINDING: property=%s %s [%s at %s:%d %s: %s]"
                   % (self.pid, m["finding"].get("what", o["what"]), o["rule"], o["file"], o["line"],
                      o["function"], o["construct"]))
+        # findings identified by a HISTORY (a schedule / input reproduced against the real code) that no static rule of this check
+        # decides: they suppress nothing, and are listed for as long as the function they live in still contains the witness statement
+        for k in kf.get("observed", []):
+            if k.get("property") != self.pid:
+                continue
+            w = k.get("witness") or {}
+            present = True
+            try:
+                mod = self.repo.module(w["file"])
+                fn = mod.functions.get(w["function"])
+                import ast as _ast
+                norm = lambda t: "".join(t.split())
+                present = fn is not None and norm(w["statement"]) in norm(_ast.unparse(fn))
+            except Exception:
+                present = False
+            if present:
+                print("KNOWN-FINDING: property=%s %s [history, not decided statically; reproducer %s; lives in %s %s]"
+                      % (self.pid, k.get("what", ""), k.get("reproducer", "?"), w.get("file", "?"), w.get("function", "?")))
         if new:
             replay_dir = os.environ.get("VERIF_REPLAY_DIR", os.path.join(VERIF_DIR, "replay"))
             os.makedirs(replay_dir, exist_ok=True)
